@@ -176,6 +176,19 @@ def run(chk):
     cases.append(("self-miter::names containing c0_ / c1_", cS, None, None, None))
     cases.append(("self-miter::names containing c0_ / c1_::one tied startpoint", cS, None, {"c0_n"}, None))
     cases.append(("self-miter::plain", cH, None, None, None))
+    # self-miters with only some startpoints tied: a difference fed by an untied startpoint has to reach endpoints many levels away
+    # (chains numbered upwards, downwards and by name: whatever order a set of the nodes is walked in, it is not topological for all)
+    for style_, namer_ in (("upwards", lambda j_, i_: f"n{j_}_{i_}"), ("downwards", lambda j_, i_: f"n{j_}_{9 - i_}"), ("words", lambda j_, i_: ("alpha", "kilo", "bravo", "zulu", "echo", "mike")[i_] + str(j_))):
+        spec_ = {"a": ("input", []), "b": ("input", []), "t": ("input", [])}
+        outs_ = []
+        for j_ in range(4):
+            prev_ = "b"
+            for i_ in range(6):
+                nm_ = namer_(j_, i_)
+                spec_[nm_] = (("xor", "nand", "or", "xnor")[(i_ + j_) % 4], [prev_, "a" if i_ % 2 else "t"])
+                prev_ = nm_
+            outs_.append(prev_)
+        cases.append((f"self-miter::deep chains off an untied startpoint::{style_}", build(spec_, outputs=outs_), None, {"a", "t"}, None))
     from ..pkgenv import FullStackCaller
 
     FS = FullStackCaller(repo)
